@@ -272,6 +272,7 @@ func cmdCheck(args []string) int {
 	if *tier == "thorough" {
 		cov["mutants"] = runMutants(chk.ID, false)
 		cov["seeded_changes"] = runSeeds(chk.ID, false)
+		cov["benign_refactorings"] = runBenign(chk.ID, false)
 	}
 	ev := report.Evidence{PropertyID: chk.ID, Tier: *tier, Seed: seed, Level: "other", Coverage: cov,
 		Assumptions: append([]string{"the claim is the named structural clause only (necessary condition), not the behaviour over all inputs/schedules"}, chk.Trusted...),
@@ -482,6 +483,9 @@ func cmdSelftest(args []string) int {
 			o.Outcome = "killed"
 		}
 		outs = append(outs, o)
+	}
+	for _, bo := range runBenign(*prop, true) {
+		outs = append(outs, mutantOutcome{ID: "benign " + bo.ID, Outcome: bo.Outcome, Detail: bo.Detail})
 	}
 	bad := 0
 	count := map[string]int{}
@@ -742,4 +746,137 @@ func runSeed(id, dir, prop string) (out seedOutcome) {
 		out.Detail = "check-error: " + strings.Join(res.Errors, "; ")
 	}
 	return
+}
+
+// ---------------------------------------------------------------------------
+// benign corpus: behaviour-preserving refactorings (/verif/benign/<id>/patch.diff) on which every check whose
+// packages are touched must stay silent (no violation, no CHECK-ERROR).
+
+func patchOverlay(dir string) (map[string][]byte, []string, error) {
+	patch, err := os.ReadFile(filepath.Join(dir, "patch.diff"))
+	if err != nil {
+		return nil, nil, err
+	}
+	var files []string
+	for _, l := range strings.Split(string(patch), "\n") {
+		if strings.HasPrefix(l, "+++ b/") {
+			files = append(files, strings.TrimSpace(strings.TrimPrefix(l, "+++ b/")))
+		}
+	}
+	tmp, err := os.MkdirTemp("", "verif-patch-")
+	if err != nil {
+		return nil, nil, err
+	}
+	defer os.RemoveAll(tmp)
+	for _, f := range files {
+		src, err := os.ReadFile(filepath.Join(repoDir, f))
+		os.MkdirAll(filepath.Dir(filepath.Join(tmp, f)), 0o755)
+		if err == nil {
+			os.WriteFile(filepath.Join(tmp, f), src, 0o644)
+		}
+	}
+	cmd := exec.Command("patch", "-p1", "-s", "-f", "-d", tmp, "-i", filepath.Join(dir, "patch.diff"))
+	if b, err := cmd.CombinedOutput(); err != nil {
+		return nil, files, fmt.Errorf("patch does not apply to the current tree: %s", strings.TrimSpace(string(b)))
+	}
+	overlay := map[string][]byte{}
+	for _, f := range files {
+		b, err := os.ReadFile(filepath.Join(tmp, f))
+		if err == nil {
+			overlay[filepath.Join(repoDir, f)] = b
+		}
+	}
+	return overlay, files, nil
+}
+
+// runBenign runs, for every benign refactoring, the checks of the properties whose packages the patch touches
+// (restricted to prop when given). Outcomes: silent | false-alarm | check-error | not-applicable.
+func runBenign(prop string, verbose bool) []seedOutcome {
+	dirs, _ := filepath.Glob(filepath.Join(verifDir, "benign", "*"))
+	sort.Strings(dirs)
+	var outs []seedOutcome
+	var mu sync.Mutex
+	var wg sync.WaitGroup
+	sem := make(chan struct{}, 6)
+	findings, _ := report.LoadFindings(filepath.Join(verifDir, "KNOWN_FINDINGS.txt"))
+	open := map[string]bool{}
+	for _, f := range findings {
+		if f.Open {
+			open[f.Key] = true
+		}
+	}
+	for _, d := range dirs {
+		if _, err := os.Stat(filepath.Join(d, "patch.diff")); err != nil {
+			continue
+		}
+		id := filepath.Base(d)
+		overlay, files, err := patchOverlay(d)
+		if err != nil {
+			if prop == "" {
+				outs = append(outs, seedOutcome{ID: id, Outcome: "not-applicable", Detail: err.Error()})
+			}
+			continue
+		}
+		for _, pid := range rules.IDs() {
+			if prop != "" && pid != prop {
+				continue
+			}
+			chk := rules.Get(pid)
+			touched := false
+			for _, f := range files {
+				for _, pk := range chk.Pkgs {
+					if filepath.ToSlash(filepath.Dir(f)) == pk {
+						touched = true
+					}
+				}
+			}
+			if !touched {
+				continue
+			}
+			wg.Add(1)
+			go func(id string, chk *rules.Check, overlay map[string][]byte) {
+				defer wg.Done()
+				sem <- struct{}{}
+				defer func() { <-sem }()
+				out := seedOutcome{ID: id + "/" + chk.ID}
+				func() {
+					defer func() {
+						if r := recover(); r != nil {
+							out.Outcome, out.Detail = "check-error", fmt.Sprintf("panic: %v", r)
+						}
+					}()
+					p, err := loadFor(chk, primary, overlay)
+					if err != nil {
+						out.Outcome, out.Detail = "check-error", "does not load: "+err.Error()
+						return
+					}
+					res := rules.RunCheck(chk, p, primary.String())
+					for _, o := range res.Obligations {
+						if o.Status == report.Violated && !open[o.Key] {
+							out.Outcome, out.Detail = "false-alarm", o.Key+" @ "+o.Pos+": "+o.Detail
+							return
+						}
+						if o.Status == report.Undecided {
+							out.Outcome, out.Detail = "check-error", "undecided: "+o.Key+" "+o.Detail
+							return
+						}
+					}
+					if len(res.Errors) > 0 {
+						out.Outcome, out.Detail = "check-error", strings.Join(res.Errors, "; ")
+						return
+					}
+					out.Outcome = "silent"
+				}()
+				if verbose {
+					fmt.Printf("  benign %-40s %s %s\n", out.ID, out.Outcome, out.Detail)
+				}
+				mu.Lock()
+				outs = append(outs, out)
+				mu.Unlock()
+			}(id, chk, overlay)
+		}
+	}
+	wg.Wait()
+	sort.Slice(outs, func(i, j int) bool { return outs[i].ID < outs[j].ID })
+	return outs
 }
